@@ -20,6 +20,7 @@ ap.add_argument('--checks', required=True)
 ap.add_argument('--tier', default='quick')
 ap.add_argument('--demo-timeout', type=int, default=1500)
 ap.add_argument('--skip-confirm', action='store_true', help='only run the checks (confirmation already recorded)')
+ap.add_argument('--test-name', help='the demonstration is an in-crate #[test] added by demo.diff: name of the test')
 a = ap.parse_args()
 
 here = os.path.dirname(os.path.dirname(os.path.abspath(__file__)))
@@ -50,20 +51,30 @@ for f in ['patch.diff', 'demo.rs', 'RUN.txt', 'NOTES.md']:
         shutil.copy(os.path.join(a.src, f), os.path.join(out, f))
 
 demo = ['cargo', 'run', '--release', '--offline', '--example', 'seed_demo']
+if a.test_name:
+    demo = ['cargo', 'test', '--offline', a.test_name]
+    env = dict(env, CARGO_TARGET_DIR=f'{base}/target-tests')
+    if os.path.exists(os.path.join(a.src, 'demo.diff')):
+        shutil.copy(os.path.join(a.src, 'demo.diff'), os.path.join(out, 'demo.diff'))
+if not a.skip_confirm and a.test_name:
+    subprocess.check_call(['patch', '-p1', '-s', '--no-backup-if-mismatch', '-d', repo, '-i', os.path.join(a.src, 'demo.diff')])
 if not a.skip_confirm:
     os.makedirs(f'{repo}/examples', exist_ok=True)
-    shutil.copy(os.path.join(a.src, 'demo.rs'), f'{repo}/examples/seed_demo.rs')
+    shutil.copy(os.path.join(a.src, 'demo.rs'), f'{repo}/examples/seed_demo.rs') if not a.test_name else None
     rc0, so, se, dt = run(demo, a.demo_timeout, cwd=repo, env=env)
     print(f'SEED {name}: demo on unchanged copy -> exit {rc0} ({dt:.0f}s)')
     meta['demo_unchanged_exit'] = rc0
     meta['demo_unchanged_tail'] = (so + se)[-600:]
-subprocess.check_call(['patch', '-p1', '-s', '-d', repo, '-i', os.path.join(a.src, 'patch.diff')])
+subprocess.check_call(['patch', '-p1', '-s', '--no-backup-if-mismatch', '-d', repo, '-i', os.path.join(a.src, 'patch.diff')])
 if not a.skip_confirm:
     rc1, so, se, dt = run(demo, a.demo_timeout, cwd=repo, env=env)
     print(f'SEED {name}: demo on changed copy   -> exit {rc1} ({dt:.0f}s)')
     meta['demo_changed_exit'] = rc1
     meta['demo_changed_tail'] = (so + se)[-1200:]
-    os.remove(f'{repo}/examples/seed_demo.rs')
+    if not a.test_name:
+        os.remove(f'{repo}/examples/seed_demo.rs')
+    else:
+        subprocess.check_call(['patch', '-R', '-p1', '-s', '--no-backup-if-mismatch', '-d', repo, '-i', os.path.join(a.src, 'demo.diff')])
     rct, so, se, dt = run(['cargo', 'test', '--offline'], 3000, cwd=repo, env=dict(env, CARGO_TARGET_DIR=f'{base}/target-tests'))
     res = [l for l in so.splitlines() if l.startswith('test result')]
     print(f'SEED {name}: cargo test on changed copy -> exit {rct} {res[:1]} ({dt:.0f}s)')
